@@ -11,7 +11,7 @@
    inside its i-th call in exactly the configurations in which it has i results,
    has been invoked and has not returned ([in_call]); [in_call_at] adds the
    configuration in which the call takes its first step (closed interval). *)
-From Typ Require Import SyncMap.Model SyncMap.Inv SyncMap.SetAtomic Lib.Lin SyncMap.Linearizable SyncMap.RangeConc.
+From Typ Require Import SyncMap.Model SyncMap.Inv SyncMap.SetAtomic Lib.Lin SyncMap.Linearizable SyncMap.RangeConc SyncMap.SetCounts.
 
 (* (1) Range calls its function at most once per key. *)
 Theorem C04_range_once : forall z progs sched t th i out cnt,
@@ -36,7 +36,9 @@ Print Assumptions C04_range_values.
 (* (3) ... and visits every key that was present with one value, untouched,
    for the whole call - unless THIS call's own callback stopped the iteration:
    the call in question (the i-th call of thread t's program p) is a Range
-   whose callback stops after n entries, and it did report n entries. Other
+   whose callback stops after n entries, and it did report at least one entry
+   and at least n entries (out <> []: a callback that was never called cannot
+   have stopped anything, also for n = 0). Other
    Range calls of the program, stopping or not, do not weaken the claim. *)
 Theorem C04_range_complete : forall z progs sched t th i out cnt,
   Forall (Forall rfrag) progs ->
@@ -45,9 +47,27 @@ Theorem C04_range_complete : forall z progs sched t th i out cnt,
   forall k v,
     (forall x, In x (steps_from (init_config_z [z] progs) sched) -> in_call_at x t i -> abs_lookup (st0 x.1) k = Some v) ->
     In (k, v) out \/
-    exists p n, nth_error progs t = Some p /\ nth_error p i = Some (CRange 0 (CbStop (Some n))) /\ (Z.of_nat n <= cnt)%Z.
+    exists p n, nth_error progs t = Some p /\ nth_error p i = Some (CRange 0 (CbStop (Some n))) /\
+                out <> [] /\ (Z.of_nat n <= cnt)%Z.
 Proof. exact range_complete. Qed.
 Print Assumptions C04_range_complete.
+
+(* the same with the count: cnt is the number of pairs passed to the callback,
+   and the escape requires that the callback was called at least once and at
+   least n times (CbStop (Some 0) behaves like CbStop (Some 1): the callback
+   can only stop the iteration by being called) *)
+Theorem C04_range_complete_count : forall z progs sched t th i out cnt,
+  Forall (Forall rfrag) progs ->
+  let c := run_schedule (init_config_z [z] progs) sched in
+  nth_error (c_threads c) t = Some th -> nth_error (t_results th) i = Some (RRange out cnt) ->
+  cnt = Z.of_nat (length out) /\
+  forall k v,
+    (forall x, In x (steps_from (init_config_z [z] progs) sched) -> in_call_at x t i -> abs_lookup (st0 x.1) k = Some v) ->
+    In (k, v) out \/
+    exists p n, nth_error progs t = Some p /\ nth_error p i = Some (CRange 0 (CbStop (Some n))) /\
+                (0 < cnt)%Z /\ (Z.of_nat n <= cnt)%Z.
+Proof. exact range_complete_cnt. Qed.
+Print Assumptions C04_range_complete_count.
 
 (* hence for a Range whose own callback never stops the clause has no escape *)
 Theorem C04_range_complete_nonstop : forall z progs sched t th i out cnt p,
@@ -91,3 +111,23 @@ Example C04range_example_mixed :
   finished c = true /\ Forall (Forall rfrag) rng2_progs /\
   (exists p, nth_error rng2_progs 0 = Some p /\ nth_error p 3 = Some (CRange 0 (CbStop None))).
 Proof. vm_compute. repeat split; repeat constructor. eexists; split; reflexivity. Qed.
+
+(* Non-vacuity of the stability hypothesis of C04_range_complete* : in the run
+   of C04range_example key 1 holds 10 in every configuration of the closed
+   interval of G0's Range (checked by computation, [stable_check]); key 2 does
+   not hold one value throughout (stored during the Range). In the mixed run,
+   keys 1 and 2 are stable during both of G0's Ranges (its calls 2 and 3). *)
+Example C04range_stability_example :
+  (forall x, In x (steps_from (init_config 1 rng_progs) rng_sched) -> in_call_at x 0 0 -> abs_lookup (st0 x.1) 1%Z = Some 10%Z) /\
+  ~ (forall x, In x (steps_from (init_config 1 rng_progs) rng_sched) -> in_call_at x 0 0 -> abs_lookup (st0 x.1) 2%Z = Some 20%Z) /\
+  (forall x, In x (steps_from (init_config 1 rng2_progs) rng2_sched) -> in_call_at x 0 2 -> abs_lookup (st0 x.1) 1%Z = Some 10%Z) /\
+  (forall x, In x (steps_from (init_config 1 rng2_progs) rng2_sched) -> in_call_at x 0 3 -> abs_lookup (st0 x.1) 1%Z = Some 10%Z).
+Proof.
+  split; [apply stable_check; vm_compute; reflexivity|].
+  split; [|split; apply stable_check; vm_compute; reflexivity].
+  intros H. specialize (H (nth 11 (steps_from (init_config 1 rng_progs) rng_sched) (init_config 1 rng_progs, 0))).
+  assert (X : abs_lookup (st0 (nth 11 (steps_from (init_config 1 rng_progs) rng_sched) (init_config 1 rng_progs, 0)).1) 2%Z = None) by (vm_compute; reflexivity).
+  rewrite X in H. discriminate H.
+  - apply nth_In. vm_compute. lia.
+  - right. split; [vm_compute; reflexivity|]. eexists. split; [vm_compute; reflexivity|]. vm_compute. repeat split; discriminate.
+Qed.
